@@ -99,3 +99,13 @@ Proof.
   etransitivity; [|apply (gen_count_fold ids keypers 0); lia].
   apply fold_left_ext; [|reflexivity]. intros n k. destruct (amem ids k); reflexivity.
 Qed.
+
+(* ShutterApp.CurrentValidators as translated: the newest started config whose validators were
+   updated decides, else the stored validators *)
+Lemma gen_current_validators_agrees ids validators cs :
+  gen_current_validators ids validators cs = current_validators ids validators cs.
+Proof.
+  unfold gen_current_validators, current_validators.
+  induction (rev cs) as [|c r IH]; cbn [find current_validators_rev]; [reflexivity|].
+  destruct (c_started c), (c_valupd c); cbn [andb]; try exact IH; apply gen_make_powermap_agrees.
+Qed.
